@@ -205,6 +205,7 @@ def gen_cases(tier, seed):
         cases.append({"id": "protocol-%s" % b, "sig": ["protocol", b], "kind": "protocol", "binding": b, "trunc": 10 if tier == "quick" else 100000})
     cases.append({"id": "metadata", "sig": ["metadata"], "kind": "metadata", "trunc": 10 if tier == "quick" else 100000})
     cases.append({"id": "signed-with-doctype", "sig": ["signed-with-doctype"], "kind": "signed"})
+    cases.append({"id": "encrypted-references", "sig": ["encrypted-references"], "kind": "encrypted-references", "all_envs": True})
     # hostile documents delivered by one thread while other threads of the same process handle ordinary traffic (SOAP requests, POST
     # responses, metadata loads) - yields injected inside the library
     for k in range(2 if tier == "quick" else 12):
@@ -217,7 +218,7 @@ def gen_cases(tier, seed):
         # the same signed and protocol cases once more in a child process under strace: the operating system's view of the whole process
         # tree, external signature tool included (audit hooks end at the interpreter)
         cases.append({"id": "os-level-trace", "sig": ["os-level-trace"], "kind": "strace",
-                      "only": ["signed-with-doctype", "protocol-post"] if tier == "quick" else ["signed-with-doctype", "protocol-", "metadata", "generic-and-soap"]})
+                      "only": ["signed-with-doctype", "protocol-post", "encrypted-references"] if tier == "quick" else ["signed-with-doctype", "protocol-", "metadata", "generic-and-soap", "encrypted-references"]})
     return cases
 
 
@@ -228,6 +229,56 @@ class Obs(object):
         self.counters = {}
         self.sigs = []
         self.reached = set()
+        # the operating system's view of the canary files: an open or read by any process, the external tool included
+        from vlib import fswatch
+        self.watch = fswatch.Watch(list(canary_paths(ctx.scratch))).__enter__()
+        self.counters["os_level_canary_watch"] = int(self.watch.available)
+        self.listener = None
+
+    def listen(self):
+        """a local TCP port nobody has a reason to talk to; returns its number.  Whoever connects is counted and sent away at once
+        (a peer that is kept waiting would keep the external tool - and with it the library - waiting)."""
+        import socket
+        import threading
+        if self.listener is None:
+            s = socket.socket(socket.AF_INET, socket.SOCK_STREAM)
+            s.bind(("127.0.0.1", 0))
+            s.listen(16)
+            s.settimeout(0.2)
+            self.listener = s
+            self._nconn = 0
+            self._stop = False
+
+            def serve():
+                while not self._stop:
+                    try:
+                        c, _a = s.accept()
+                    except socket.timeout:
+                        continue
+                    except OSError:
+                        break
+                    self._nconn += 1
+                    try:
+                        c.sendall(b"HTTP/1.0 404 Not Found\r\nContent-Length: 0\r\n\r\n")
+                        c.close()
+                    except OSError:
+                        pass
+            self._thread = threading.Thread(target=serve, daemon=True)
+            self._thread.start()
+        return self.listener.getsockname()[1]
+
+    def connections(self):
+        if self.listener is None:
+            return 0
+        n, self._nconn = self._nconn, 0
+        return n
+
+    def close(self):
+        self.watch.__exit__()
+        if self.listener is not None:
+            self._stop = True
+            self.listener.close()
+            self.listener = None
 
     def hit(self, k, n=1):
         self.counters[k] = self.counters.get(k, 0) + n
@@ -265,6 +316,14 @@ class Obs(object):
                 self.viol.append({"key": "C11/file-read-because-of-document-content", "what": "%s: opened %s" % (ctxs, detail)})
             elif name.startswith("socket.") or name in ("urllib.Request", "http.client.connect", "ftplib.connect"):
                 self.viol.append({"key": "C11/network-access-because-of-document-content", "what": "%s: %s %s" % (ctxs, name, detail)})
+        for path, what in self.watch.events():
+            self.viol.append({"key": "C11/file-read-because-of-document-content",
+                              "what": "%s: %s of %s by a process of this tree (seen by the operating system, not by the interpreter: the external tool)" % (
+                                  ctxs, what, os.path.basename(path))})
+        nconn = self.connections()
+        if nconn:
+            self.viol.append({"key": "C11/network-access-because-of-document-content",
+                              "what": "%s: %d connection(s) arrived at the local port named in the document" % (ctxs, nconn)})
         # (2) non-defused parser on inbound data
         for p in inpkg:
             if not p["defused"]:
@@ -534,6 +593,8 @@ def run_case(case, ctx):
         return run_suite(case, ctx)
     elif kind == "threads":
         return run_threads_case(case, ctx)
+    elif kind == "encrypted-references":
+        _encrypted_references(o, case, ctx)
     elif kind == "signed":
         # a validly signed response with a DOCTYPE (no entity), a PI and a comment in front: may be accepted, nothing may be fetched,
         # and this is what reaches the parse inside the signature check
@@ -546,11 +607,67 @@ def run_case(case, ctx):
                            ("comment", "<!-- c -->"), ("internal-entity", '<!DOCTYPE r [<!ENTITY e "x">]>')):
                 f = lambda data: sp.parse_authn_request_response(base64.b64encode(data).decode(), "urn:oasis:names:tc:SAML:2.0:bindings:HTTP-POST", {"id-req-1": "/"})
                 o.call("client.parse_authn_request_response[signed]", k, f, (pre + body).encode("utf-8"), "raise" if is_entity_kind(k) else "any")
+    o.close()
     uniq = {}
     for v in o.viol:
         uniq.setdefault(v["key"] + "|" + v["what"].split(" <- ")[0][-60:], v)
     return {"outcome": "violations" if o.viol else "held", "nontrivial": bool(o.sigs), "violations": list(uniq.values())[:15], "counters": o.counters,
             "sigs": o.sigs, "evals": o.counters.get("calls", 0), "obs": {"reached_sites": sorted(o.reached)}, "reached": sorted(o.reached)}
+
+
+def _encrypted_references(o, case, ctx):
+    """XML Encryption lets a document say that the cipher text (xenc:CipherReference) or the key (ds:RetrievalMethod) is to be fetched from
+    a URI.  Decryption is the external tool's job, so this is where a file or a network resource named by an incoming message would be
+    read without the interpreter seeing anything: oracle = inotify on the canary files + a listening local port."""
+    from vlib import fed, xmlkit as xk
+    c, _d = canary_paths(ctx.scratch)
+    port = o.listen()
+    sp, idp = fed.pair(fed.sp_conf(want_response_signed=False, want_assertions_signed=False), None)
+    ident = {"givenName": ["Ann"], "mail": ["ann@example.org"]}
+    plain = fed.issue(idp, ident, sign_response=False, sign_assertion=False)
+    cert = fed.key(2)[1]
+    docs = {"EncryptedAssertion": xk.encrypt_assertions(plain, cert)}
+    d = xk.Doc(plain)
+    nid = d.find(xk.SAML, "NameID")[0]
+    pfx = d.prefix(nid)
+    ed = xk.encrypt_fragment(d.standalone(nid), cert).decode("utf-8")
+    docs["EncryptedID"] = d.replace(nid, "<%s:EncryptedID>%s</%s:EncryptedID>" % (pfx, ed, pfx)).text()
+    # (saml:EncryptedAttribute is left out: response.decrypt_attributes() hands the tool wrapper an object where it wants text and ends in
+    # a TypeError before any tool run, on every tree)
+    post = "urn:oasis:names:tc:SAML:2.0:bindings:HTTP-POST"
+    f = lambda data: sp.parse_authn_request_response(base64.b64encode(data).decode(), post, {"id-req-1": "/"})
+    uris = {"file-uri": "file://" + c, "bare-path": c, "http-uri": "http://127.0.0.1:%d/canary.txt" % port}
+    b64t = '<xenc:Transforms xmlns:xenc="%s"><ds:Transform xmlns:ds="%s" Algorithm="http://www.w3.org/2000/09/xmldsig#base64"/></xenc:Transforms>' % (xk.XENC, xk.DS)
+    for cont, xml in sorted(docs.items()):
+        base = o.call("client.parse_authn_request_response[%s]" % cont, "as-issued", f, xml.encode("utf-8"), "any")
+        if base[0] != "value" or base[1] is None:
+            o.hit("valid_document_not_accepted")
+        else:
+            o.hit("encrypted_documents_accepted_as_issued")
+        cv = list(re.finditer(r"<xenc:CipherValue>[^<]*</xenc:CipherValue>", xml))
+        ek = re.search(r"<ds:KeyInfo><xenc:EncryptedKey>.*?</xenc:EncryptedKey></ds:KeyInfo>", xml, re.S)
+        kn = re.search(r"<ds:KeyInfo><ds:KeyName>[^<]*</ds:KeyName></ds:KeyInfo>", xml)
+        if len(cv) != 2 or not ek or not kn:
+            o.hit("harness_could_not_build_reference_documents")
+            continue
+        for uname, uri in sorted(uris.items()):
+            variants = {
+                "cipher-data-by-reference": xml[:cv[1].start()] + '<xenc:CipherReference URI="%s"/>' % uri + xml[cv[1].end():],
+                "cipher-data-by-reference-with-transforms": xml[:cv[1].start()] + '<xenc:CipherReference URI="%s">%s</xenc:CipherReference>' % (uri, b64t) + xml[cv[1].end():],
+                "encrypted-key-by-reference": xml[:cv[0].start()] + '<xenc:CipherReference URI="%s"/>' % uri + xml[cv[0].end():],
+                "key-by-retrieval-method": xml[:ek.start()] + '<ds:KeyInfo><ds:RetrievalMethod URI="%s" Type="http://www.w3.org/2001/04/xmlenc#EncryptedKey"/></ds:KeyInfo>' % uri + xml[ek.end():],
+                "key-encryption-key-by-retrieval-method": xml[:kn.start()] + '<ds:KeyInfo><ds:RetrievalMethod URI="%s" Type="http://www.w3.org/2000/09/xmldsig#rawX509Certificate"/></ds:KeyInfo>' % uri + xml[kn.end():],
+            }
+            for vname, text in sorted(variants.items()):
+                o.hit("reference_documents")
+                o._call("client.parse_authn_request_response[%s]" % cont, "%s:%s" % (vname, uname), f, text.encode("utf-8"), "any")
+        # the one use of ds:RetrievalMethod that SAML deployments do make: the EncryptedKey next to the EncryptedData, named by a
+        # same-document reference.  Refusing external references must not refuse this.
+        key_el = ek.group(0)[len("<ds:KeyInfo>"):-len("</ds:KeyInfo>")].replace("<xenc:EncryptedKey>", '<xenc:EncryptedKey xmlns:xenc="%s" xmlns:ds="%s" Id="peer-key-1">' % (xk.XENC, xk.DS), 1)
+        peer = xml[:ek.start()] + '<ds:KeyInfo><ds:RetrievalMethod URI="#peer-key-1" Type="http://www.w3.org/2001/04/xmlenc#EncryptedKey"/></ds:KeyInfo>' + xml[ek.end():]
+        peer = peer.replace("</xenc:EncryptedData>", "</xenc:EncryptedData>" + key_el, 1)
+        r = o._call("client.parse_authn_request_response[%s]" % cont, "key-next-to-data-by-same-document-reference", f, peer.encode("utf-8"), "any")
+        o.hit("same_document_key_reference_accepted" if (r[0] == "value" and r[1] is not None) else "same_document_key_reference_refused")
 
 
 _SYSCALL = re.compile(r'^(\d+)\s+(openat|open|connect|execve)\((.*)$')
